@@ -9,6 +9,7 @@ import (
 	"fmt"
 	"net/http"
 	"net/http/httptest"
+	"os"
 	"strconv"
 	"strings"
 	"sync"
@@ -485,7 +486,7 @@ func (w *world) exec(ws []string) string {
 			return res.code + " *"
 		}
 		return fmt.Sprintf("%s %d", res.code, res.status)
-	case "srv", "guard", "access", "fixed":
+	case "guard", "access", "fixed", "discovery", "srvclose":
 		return w.execSrv(ws)
 	}
 	return "bad-op"
@@ -497,6 +498,8 @@ func NewExec() func(w []string) string {
 	return func(ws []string) string {
 		if wd == nil {
 			wd = newWorld()
+			// a child process of the generator keeps its server between ops and ends with `srvclose`
+			wd.keepSrv = os.Getenv("PKH_C17_KEEPSRV") == "1"
 		}
 		return hk.Guard(func() string { return wd.exec(ws) })
 	}
